@@ -2,7 +2,7 @@
 CONTRACT_MODULES = ['contracts.keys_hd', 'contracts.bip38']
 CONTRACTS = ['bitcoinlib.keys.bip38_intermediate_password[fresh-salt]', 'bitcoinlib.keys.bip38_create_new_encrypted_wif[fresh-seed-native]',
              'bitcoinlib.keys.Key.encrypt[roundtrip-native]', 'bitcoinlib.keys.bip38_intermediate_password[spec-no-lot]',
-             'bitcoinlib.keys.bip38_intermediate_password[spec-lot]']
+             'bitcoinlib.keys.bip38_intermediate_password[spec-lot]', 'bitcoinlib.keys.bip38_create_new_encrypted_wif[ec-multiplied-roundtrip-native]']
 LEVEL = 'proof'
 LEVEL_TEXT = ('FRESHNESS is decided deductively: (1) for every function of keys.py / encoding.py / mnemonic.py that has default arguments, the '
               'obligation "no default expression is a call" (defaults are evaluated once per process) is generated from the source and checked; '
@@ -15,7 +15,7 @@ LEVEL_TEXT = ('FRESHNESS is decided deductively: (1) for every function of keys.
 LEVEL_NOTE = ('Assumed models: os.urandom (fresh bytes per call), scrypt, unicodedata.normalize, HDKey(...) constructor, base58encode and to_bytes '
               'as uninterpreted/identity helpers (contracts/external.py). Not covered deductively: bip38_encrypt / bip38_decrypt algebra, '
               'EC-multiplied decryption, agreement with the BIP38 test vectors (native only).')
-NOT_COVERED = ['bip38_encrypt/bip38_decrypt inverse as a proof (native evaluation only)', 'EC-multiplied mode decrypt', 'BIP38 vectors']
+NOT_COVERED = ['bip38_encrypt/bip38_decrypt inverse as a proof (native evaluation only)', 'EC-multiplied mode decrypt as a proof (native round trip only)', 'BIP38 vectors']
 TRUSTED = ['os.urandom / scrypt / AES / unicodedata models (contracts/external.py)', 'HDKey(...) constructor model']
 FUZZ_QUICK = 40
 FUZZ_THOROUGH = 1500
